@@ -2414,3 +2414,19 @@ def variant_name_flow_rule(syn, prop, rule="C09.R5"):
                    fn["file"], e["line"])
     r.floor = 1
     return r
+
+
+def crate_path_rule(syn, prop, rule="C16.R15"):
+    """`#[ts(crate = "..")]` exists because the runtime crate may be re-exported under another path"""
+    r = Result(rule, "generated code reaches the runtime crate only through the `#crate_rename` interpolation: no template spells `ts_rs::` (or `::ts_rs`), which would not resolve for users who re-export the crate and say `#[ts(crate = \"..\")]`")
+    n = 0
+    for fn in syn.fns_in("macros/src/"):
+        for e in templates(fn):
+            n += 1
+            fl = [t for t in S.flat(e["tokens"]) if isinstance(t, str)]
+            if "ts_rs" in fl and not fn["qual"].endswith("crate_rename"):   # crate_rename() is where the default `::ts_rs` is defined
+                r.inst(fn=fn["qual"], where="%s:%s" % (fn["file"], e["line"]), hard_coded=True)
+                r.fail(prop, "hard-coded-crate-path %s" % fn["qual"], "a template names `ts_rs` directly instead of `#crate_rename`: with `#[ts(crate = \"my_facade::ts_rs\")]` the expansion does not compile", fn["file"], e["line"])
+    r.inst(templates_examined=n)
+    r.floor = 1
+    return r
